@@ -191,6 +191,12 @@ func (msg MsgInitiateTokenDeposit) Validate(ac address.Codec) error {
 		return ErrInvalidAmount
 	}
 
+	// the withdrawal leaf commits the amount as uint64; a larger deposit could
+	// never be withdrawn (or refunded) back to L1.
+	if !msg.Amount.Amount.IsUint64() {
+		return ErrInvalidAmount.Wrap("amount exceeds 64 bits")
+	}
+
 	if msg.BridgeId == 0 {
 		return ErrInvalidBridgeId
 	}
@@ -246,6 +252,11 @@ func (msg MsgFinalizeTokenWithdrawal) Validate(ac address.Codec) error {
 
 	if !msg.Amount.IsValid() || msg.Amount.IsZero() {
 		return ErrInvalidAmount
+	}
+
+	// the withdrawal leaf commits the amount as uint64
+	if !msg.Amount.Amount.IsUint64() {
+		return ErrInvalidAmount.Wrap("amount exceeds 64 bits")
 	}
 
 	if msg.Sequence == 0 {
